@@ -86,12 +86,14 @@ pub fn parse_files(
         }
         [] => {
             // TODO: Maybe use a flag to ensure that a main component must be present.
-            let template_library = TemplateLibrary::new(definitions, file_library);
+            let mut template_library = TemplateLibrary::new(definitions, file_library);
+            reports.append(&mut template_library.reports);
             ParseResult::Library(Box::new(template_library), reports)
         }
         _ => {
             reports.push(errors::MultipleMainError::produce_report());
-            let template_library = TemplateLibrary::new(definitions, file_library);
+            let mut template_library = TemplateLibrary::new(definitions, file_library);
+            reports.append(&mut template_library.reports);
             ParseResult::Library(Box::new(template_library), reports)
         }
     };
